@@ -62,6 +62,9 @@ Proof. destruct v; [congruence|reflexivity]. Qed.
 Lemma older_V1 a b : older (V 1 a) (V 1 b) = N.ltb a b.
 Proof. reflexivity. Qed.
 
+Lemma older_V1_mn m v : v = V 1 (minor_of v) -> older (V 1 m) v = N.ltb m (minor_of v).
+Proof. destruct v as [|p q]; [discriminate|]. cbn [minor_of]. intros [= ->]. reflexivity. Qed.
+
 (** the running maximum used by both [max_version] and [newest] *)
 Definition vmax (v acc : version) : version := if older acc v then v else acc.
 
@@ -270,8 +273,808 @@ Section RegistryFacts.
     split.
     - intros [[_ [ND L]] O]. repeat split; try assumption.
       rewrite <- O. apply forallb_ext. intros c. symmetry. now apply ov_model_spec.
-    - intros [ND [L O]]. split; [split; [intros ? []|now split]|].
+    - intros [ND [L O]]. split; [split; [intros ? _; reflexivity|now split]|].
       rewrite <- O. apply forallb_ext. intros c. now apply ov_model_spec.
   Qed.
 
+  (** * Consequences of well-formedness, in Prop *)
+
+  Lemma wf_NoDup cs : well_formed cs = true -> NoDup (map ck_id cs).
+  Proof. intros H. now apply well_formed_spec in H. Qed.
+
+  Lemma wf_local_ok cs c : well_formed cs = true -> In c cs -> local_ok c = true.
+  Proof.
+    intros H Hc. apply well_formed_spec in H. destruct H as [_ [H _]].
+    rewrite forallb_forall in H. now apply H.
+  Qed.
+
+  Lemma local_ok_nonnil c : local_ok c = true -> ck_versions c <> [].
+  Proof.
+    unfold local_ok. rewrite !andb_true_iff. intros [[[_ H] _] _] E. now rewrite E in H.
+  Qed.
+
+  Lemma local_ok_rev_ok c r : local_ok c = true -> In r (ck_versions c) ->
+    vc_min r <> V 0 0 /\ vc_min r <> Latest.
+  Proof.
+    unfold local_ok. rewrite !andb_true_iff. intros [[_ H] _] Hr.
+    rewrite forallb_forall in H. specialize (H r Hr). unfold rev_ok in H.
+    apply andb_true_iff in H. destruct H as [H1 H2].
+    split; intros E; rewrite E in *; discriminate.
+  Qed.
+
+  Lemma local_ok_increasing c : local_ok c = true ->
+    strictly_increasing (map vc_min (ck_versions c)) = true.
+  Proof. unfold local_ok. rewrite !andb_true_iff. tauto. Qed.
+
+  Lemma wf_ov_spec cs c : well_formed cs = true -> In c cs -> ov_spec cs c = true.
+  Proof.
+    intros H Hc. apply well_formed_spec in H. destruct H as [_ [_ H]].
+    rewrite forallb_forall in H. now apply H.
+  Qed.
+
+  Lemma is_V1 v : (match v with V 1 _ => true | _ => false end) = true -> v = V 1 (minor_of v).
+  Proof. destruct v as [|[|[p|p|]] m]; try discriminate. reflexivity. Qed.
+
+  Lemma majors_one_V1 cs c r : majors_one cs = true -> In c cs -> In r (ck_versions c) ->
+    vc_min r = V 1 (minor_of (vc_min r)).
+  Proof.
+    unfold majors_one. rewrite forallb_forall. intros H Hc Hr.
+    specialize (H c Hc). rewrite forallb_forall in H. now apply is_V1, H.
+  Qed.
+
+  (** * Strictly increasing lists of versions *)
+
+  Lemma strictly_increasing_cons a l : strictly_increasing (a :: l) = true ->
+    (forall x, In x l -> older a x = true) /\ strictly_increasing l = true.
+  Proof.
+    revert a. induction l as [|b l IH]; intros a H.
+    - split; [intros x []|reflexivity].
+    - rewrite strictly_increasing_cons2 in H. apply andb_true_iff in H. destruct H as [H1 H2].
+      split; [|assumption]. destruct (IH b H2) as [H3 _].
+      intros x [<-|Hx]; [assumption|]. eapply older_trans; [exact H1|now apply H3].
+  Qed.
+
+  Lemma strictly_increasing_last l z : strictly_increasing (l ++ [z])%list = true ->
+    forall x, In x l -> older x z = true.
+  Proof.
+    induction l as [|a l IH]; intros H x Hx; [destruct Hx|].
+    change ((a :: l) ++ [z])%list with (a :: (l ++ [z]))%list in H.
+    apply strictly_increasing_cons in H. destruct H as [H1 H2].
+    destruct Hx as [<-|Hx]; [apply H1, in_or_app; right; now left|now apply IH].
+  Qed.
+
+  (** * [max_version] is [newest] *)
+
+  Definition all_mins (cs : list check) : list version :=
+    flat_map (fun c => map vc_min (ck_versions c)) cs.
+
+  Lemma newest_fold cs : newest cs = fold_right vmax (V 0 0) (all_mins cs).
+  Proof. reflexivity. Qed.
+
+  Lemma fold_right_map_l {A B C} (g : B -> C -> C) (h : A -> B) i l :
+    fold_right (fun a acc => g (h a) acc) i l = fold_right g i (map h l).
+  Proof. induction l; simpl; [reflexivity|now rewrite IHl]. Qed.
+
+  Lemma max_version_fold cs :
+    max_version cs = fold_right vmax (V 0 0) (map last_min (rev cs)).
+  Proof.
+    unfold max_version.
+    change (fold_left (fun mx c => if older mx (last_min c) then last_min c else mx) cs (V 0 0))
+      with (fold_left (fun x y => (fun c mx => vmax (last_min c) mx) y x) cs (V 0 0)).
+    rewrite <- fold_left_rev_right. apply fold_right_map_l.
+  Qed.
+
+  Lemma last_min_in c : ck_versions c <> [] ->
+    exists r, In r (ck_versions c) /\ last_min c = vc_min r /\
+              exists l, ck_versions c = (l ++ [r])%list.
+  Proof.
+    intros H. unfold last_min. destruct (rev (ck_versions c)) as [|r t] eqn:E.
+    - exfalso. apply H. rewrite <- (rev_involutive (ck_versions c)), E. reflexivity.
+    - exists r. assert (E' : ck_versions c = (rev t ++ [r])%list).
+      { rewrite <- (rev_involutive (ck_versions c)), E. reflexivity. }
+      split; [rewrite E'; apply in_or_app; right; now left|].
+      split; [reflexivity|now exists (rev t)].
+  Qed.
+
+  Lemma last_min_ge c r : ck_versions c <> [] ->
+    strictly_increasing (map vc_min (ck_versions c)) = true ->
+    In r (ck_versions c) -> older (last_min c) (vc_min r) = false.
+  Proof.
+    intros Hn Hs Hr. destruct (last_min_in c Hn) as [z [Hz [-> [l El]]]].
+    rewrite El in Hs, Hr. rewrite map_app in Hs. cbn [map] in Hs.
+    apply in_app_or in Hr. destruct Hr as [Hr|[<-|[]]]; [|apply older_irrefl].
+    apply older_asym. eapply strictly_increasing_last; [exact Hs|now apply in_map].
+  Qed.
+
+  Lemma all_mins_in cs x :
+    In x (all_mins cs) <-> exists c r, In c cs /\ In r (ck_versions c) /\ x = vc_min r.
+  Proof.
+    unfold all_mins. rewrite in_flat_map. split.
+    - intros [c [Hc Hx]]. apply in_map_iff in Hx. destruct Hx as [r [<- Hr]]. now exists c, r.
+    - intros [c [r [Hc [Hr ->]]]]. exists c. split; [assumption|now apply in_map].
+  Qed.
+
+  Lemma all_mins_proper cs x : well_formed cs = true -> In x (all_mins cs) ->
+    x <> V 0 0 /\ x <> Latest.
+  Proof.
+    intros W Hx. apply all_mins_in in Hx. destruct Hx as [c [r [Hc [Hr ->]]]].
+    eapply local_ok_rev_ok; [eapply wf_local_ok; eassumption|assumption].
+  Qed.
+
+  Lemma max_version_is_max cs : well_formed cs = true -> is_max (max_version cs) (all_mins cs).
+  Proof.
+    intros W. rewrite max_version_fold.
+    destruct (fold_vmax_is_max (map last_min (rev cs))) as [H1 H2].
+    set (m := fold_right vmax (V 0 0) (map last_min (rev cs))) in *.
+    split.
+    - destruct H1 as [H1|H1]; [now left|right].
+      apply in_map_iff in H1. destruct H1 as [c [<- Hc]]. apply in_rev in Hc.
+      pose proof (wf_local_ok cs c W Hc) as L.
+      destruct (last_min_in c (local_ok_nonnil c L)) as [z [Hz [-> _]]].
+      apply all_mins_in. now exists c, z.
+    - intros x Hx. apply all_mins_in in Hx. destruct Hx as [c [r [Hc [Hr ->]]]].
+      pose proof (wf_local_ok cs c W Hc) as L.
+      apply not_older_trans with (b := last_min c).
+      + destruct (last_min_in c (local_ok_nonnil c L)) as [z [Hz [-> _]]].
+        now apply (local_ok_rev_ok c z L).
+      + apply H2. apply in_map. now apply in_rev in Hc.
+      + apply last_min_ge; [now apply local_ok_nonnil|now apply local_ok_increasing|assumption].
+  Qed.
+
+  Theorem max_version_newest cs : well_formed cs = true -> max_version cs = newest cs.
+  Proof.
+    intros W. apply is_max_unique with (l := all_mins cs).
+    - intros x Hx. now apply (all_mins_proper cs x W).
+    - now apply max_version_is_max.
+    - rewrite newest_fold. apply fold_vmax_is_max.
+  Qed.
+
+  Lemma newest_is_max cs : is_max (newest cs) (all_mins cs).
+  Proof. rewrite newest_fold. apply fold_vmax_is_max. Qed.
+
+  Lemma newest_not_Latest cs : well_formed cs = true -> newest cs <> Latest.
+  Proof.
+    intros W. destruct (newest_is_max cs) as [[->|H] _]; [discriminate|].
+    now apply (all_mins_proper cs _ W).
+  Qed.
+
+  (** the newest version is at least every registered minimum version *)
+  Lemma newest_ge cs c r : In c cs -> In r (ck_versions c) -> older (newest cs) (vc_min r) = false.
+  Proof.
+    intros Hc Hr. destruct (newest_is_max cs) as [_ H]. apply H, all_mins_in. now exists c, r.
+  Qed.
+
+  (** with a single major and at least one check, the newest version is 1.x *)
+  Lemma newest_V1 cs : well_formed cs = true -> majors_one cs = true -> cs <> [] ->
+    newest cs = V 1 (minor_of (newest cs)).
+  Proof.
+    intros W M Hne. destruct cs as [|c cs']; [congruence|]. set (cs := c :: cs') in *.
+    assert (Hc : In c cs) by now left.
+    pose proof (wf_local_ok cs c W Hc) as L.
+    destruct (ck_versions c) as [|r rs] eqn:E; [now apply local_ok_nonnil in L|].
+    assert (Hr : In r (ck_versions c)) by (rewrite E; now left).
+    pose proof (newest_ge cs c r Hc Hr) as G.
+    pose proof (majors_one_V1 cs c r M Hc Hr) as Er.
+    destruct (newest_is_max cs) as [[E0|H] _].
+    - rewrite E0, Er in G. discriminate.
+    - apply all_mins_in in H. destruct H as [c' [r' [Hc' [Hr' ->]]]].
+      rewrite (majors_one_V1 cs c' r' M Hc' Hr') at 1. reflexivity.
+  Qed.
+
+  (** * [inflate] / [map_get] against [active_rev] *)
+
+  Lemma In_minors a b m : In m (minors a b) <-> (a <= m /\ m < b)%N.
+  Proof.
+    unfold minors. rewrite in_map_iff. split.
+    - intros [k [<- Hk]]. apply in_seq in Hk. lia.
+    - intros H. exists (N.to_nat (m - a)). split; [lia|]. apply in_seq. lia.
+  Qed.
+
+  Lemma map_get_app v (l1 l2 : list (version * vcheck)) :
+    map_get v (l1 ++ l2)%list =
+    match map_get v l2 with Some x => Some x | None => map_get v l1 end.
+  Proof.
+    induction l1 as [|[v' c] l1 IH]; simpl.
+    - now destruct (map_get v l2).
+    - rewrite IH. now destruct (map_get v l2).
+  Qed.
+
+  Lemma map_get_const m (c : vcheck) l :
+    map_get (V 1 m) (map (fun k => (V 1 k, c)) l) = if existsb (N.eqb m) l then Some c else None.
+  Proof.
+    induction l as [|k l IH]; [reflexivity|].
+    cbn [map map_get existsb]. rewrite IH.
+    destruct (existsb (N.eqb m) l); [now rewrite orb_true_r|].
+    rewrite orb_false_r. unfold version_eqb. now rewrite N.eqb_refl.
+  Qed.
+
+  Lemma map_get_seg m (c : vcheck) a b :
+    map_get (V 1 m) (map (fun k => (V 1 k, c)) (minors a b)) =
+    if (N.leb a m && N.ltb m b) then Some c else None.
+  Proof.
+    rewrite map_get_const.
+    replace (existsb (N.eqb m) (minors a b)) with (N.leb a m && N.ltb m b); [reflexivity|].
+    apply eq_iff_eq_true. rewrite existsb_exists, andb_true_iff, N.leb_le, N.ltb_lt. split.
+    - intros H. exists m. split; [now apply In_minors|apply N.eqb_refl].
+    - intros [k [Hk E]]. apply N.eqb_eq in E. subst k. now apply In_minors.
+  Qed.
+
+  Notation mn r := (minor_of (vc_min r)).
+
+  Definition all_V1 (vs : list vcheck) : Prop := forall r, In r vs -> vc_min r = V 1 (mn r).
+
+  Lemma all_V1_tail r vs : all_V1 (r :: vs) -> all_V1 vs.
+  Proof. intros H x Hx. apply H. now right. Qed.
+
+  Lemma inflate_cons (c : vcheck) (rest : list vcheck) mm : all_V1 (c :: rest) ->
+    inflate (c :: rest) (V 1 mm) =
+    (map (fun m => (V 1 m, c))
+         (minors (mn c) (match rest with c' :: _ => mn c' | [] => mm + 1 end))
+     ++ inflate rest (V 1 mm))%list.
+  Proof.
+    intros H. cbn [inflate]. f_equal.
+    assert (E : vc_min c = V 1 (mn c)) by (apply H; now left).
+    destruct rest as [|c' rest'].
+    - rewrite E. reflexivity.
+    - assert (E' : vc_min c' = V 1 (mn c')) by (apply H; right; now left).
+      rewrite E, E'. reflexivity.
+  Qed.
+
+  Definition step (v : version) (acc : option vcheck) (r : vcheck) : option vcheck :=
+    if older v (vc_min r) then acc else Some r.
+
+  Lemma active_rev_fold c v : active_rev c v = fold_left (step v) (ck_versions c) None.
+  Proof. reflexivity. Qed.
+
+  (** every minor from the first minimum version up to [mm] is written *)
+  Lemma inflate_covers m mm (rest : list vcheck) : forall c : vcheck,
+    all_V1 (c :: rest) -> strictly_increasing (map vc_min (c :: rest)) = true ->
+    (mn c <= m)%N -> (m <= mm)%N ->
+    map_get (V 1 m) (inflate (c :: rest) (V 1 mm)) <> None.
+  Proof.
+    induction rest as [|c' rest' IH]; intros c H1 Hs Hge Hle; rewrite (inflate_cons _ _ _ H1), map_get_app.
+    - cbn [inflate map_get]. rewrite map_get_seg.
+      destruct (N.leb_spec (mn c) m); destruct (N.ltb_spec m (mm + 1)); try lia. discriminate.
+    - cbn [map] in Hs. apply strictly_increasing_cons in Hs. destruct Hs as [_ Hs].
+      destruct (N.ltb_spec m (mn c')) as [Hlt|Hnlt].
+      + destruct (map_get (V 1 m) (inflate (c' :: rest') (V 1 mm))); [discriminate|].
+        rewrite map_get_seg.
+        destruct (N.leb_spec (mn c) m); destruct (N.ltb_spec m (mn c')); try lia. discriminate.
+      + specialize (IH c' (all_V1_tail _ _ H1) Hs Hnlt Hle).
+        destruct (map_get (V 1 m) (inflate (c' :: rest') (V 1 mm))); [discriminate|congruence].
+  Qed.
+
+  Lemma inflate_active m mm vs : forall acc,
+    all_V1 vs -> strictly_increasing (map vc_min vs) = true -> (m <= mm)%N ->
+    fold_left (step (V 1 m)) vs acc =
+    match map_get (V 1 m) (inflate vs (V 1 mm)) with Some x => Some x | None => acc end.
+  Proof.
+    induction vs as [|c rest IH]; intros acc H1 Hs Hle; [reflexivity|].
+    cbn [fold_left].
+    assert (Hs' : strictly_increasing (map vc_min rest) = true).
+    { cbn [map] in Hs. now apply strictly_increasing_cons in Hs. }
+    rewrite (IH _ (all_V1_tail _ _ H1) Hs' Hle), (inflate_cons _ _ _ H1), map_get_app.
+    destruct (map_get (V 1 m) (inflate rest (V 1 mm))) eqn:E; [reflexivity|].
+    rewrite map_get_seg. unfold step.
+    rewrite (older_V1_mn m _ (H1 c (or_introl eq_refl))).
+    destruct (N.ltb_spec m (mn c)) as [Hlt|Hge].
+    - destruct (N.leb_spec (mn c) m); [lia|reflexivity].
+    - destruct (N.leb_spec (mn c) m); [|lia]. cbn [andb].
+      destruct rest as [|c' rest'].
+      + destruct (N.ltb_spec m (mm + 1)); [reflexivity|lia].
+      + destruct (N.ltb_spec m (mn c')) as [|Hge']; [reflexivity|].
+        exfalso. now apply (inflate_covers m mm rest' c' (all_V1_tail _ _ H1) Hs' Hge' Hle).
+  Qed.
+
+  Lemma in_populated_range_V1 mm p q :
+    in_populated_range (V 1 mm) (V p q) = N.eqb p 1 && N.leb q mm.
+  Proof. destruct p as [|[p|p|]]; reflexivity. Qed.
+
+  Lemma in_populated_range_inv mx v : in_populated_range mx v = true ->
+    exists mm m, mx = V 1 mm /\ v = V 1 m /\ (m <= mm)%N.
+  Proof.
+    destruct v as [|[|[p|p|]] m]; try discriminate.
+    destruct mx as [|[|[p|p|]] mm]; try discriminate.
+    cbn. intros H. apply N.leb_le in H. now exists mm, m.
+  Qed.
+
+  (** inside the populated range the table entry of a check is its active revision *)
+  Lemma rev_at_active cs c mm m :
+    well_formed cs = true -> majors_one cs = true -> newest cs = V 1 mm -> (m <= mm)%N ->
+    In c cs -> rev_at c (V 1 mm) (V 1 m) = active_rev c (V 1 m).
+  Proof.
+    intros W M En Hle Hc. unfold rev_at. rewrite active_rev_fold.
+    pose proof (wf_local_ok cs c W Hc) as L.
+    rewrite (inflate_active m mm (ck_versions c) None).
+    - now destruct (map_get (V 1 m) (inflate (ck_versions c) (V 1 mm))).
+    - intros r Hr. now apply (majors_one_V1 cs c r M Hc).
+    - now apply local_ok_increasing.
+    - assumption.
+  Qed.
+
+  Lemma active_rev_None c v :
+    (forall r, In r (ck_versions c) -> older v (vc_min r) = true) -> active_rev c v = None.
+  Proof.
+    rewrite active_rev_fold. induction (ck_versions c) as [|r rs IH]; intros H; [reflexivity|].
+    cbn [fold_left]. unfold step at 2. rewrite (H r (or_introl eq_refl)).
+    apply IH. intros x Hx. apply H. now right.
+  Qed.
+
+  Lemma fold_step_Some v vs : forall x, exists y, fold_left (step v) vs (Some x) = Some y.
+  Proof.
+    induction vs as [|r rs IH]; intros x; [now exists x|].
+    cbn [fold_left]. unfold step at 2. destruct (older v (vc_min r)); apply IH.
+  Qed.
+
+  (** a check one of whose revisions is not newer than [v] has an active revision at [v] *)
+  Lemma active_rev_Some c v r : In r (ck_versions c) -> older v (vc_min r) = false ->
+    exists y, active_rev c v = Some y.
+  Proof.
+    rewrite active_rev_fold. generalize (@None vcheck).
+    induction (ck_versions c) as [|x xs IH]; intros acc Hr Ho; [destruct Hr|].
+    cbn [fold_left]. destruct Hr as [->|Hr].
+    - unfold step at 2. rewrite Ho. apply fold_step_Some.
+    - now apply IH.
+  Qed.
+
+  Lemma fold_step_In v vs : forall acc y, fold_left (step v) vs acc = Some y ->
+    acc = Some y \/ (In y vs /\ older v (vc_min y) = false).
+  Proof.
+    induction vs as [|r rs IH]; intros acc y H; [now left|].
+    cbn [fold_left] in H. apply IH in H. destruct H as [H|[H1 H2]].
+    - unfold step in H. destruct (older v (vc_min r)) eqn:E; [now left|].
+      injection H as <-. right. split; [now left|assumption].
+    - right. split; [now right|assumption].
+  Qed.
+
+  (** the active revision is one of the check's revisions, and is not newer than [v] *)
+  Lemma active_rev_In c v y : active_rev c v = Some y ->
+    In y (ck_versions c) /\ older v (vc_min y) = false.
+  Proof.
+    rewrite active_rev_fold. intros H. apply fold_step_In in H. now destruct H as [H|H].
+  Qed.
+
+  (** * The per-level tables against [part] *)
+
+  Notation ov := (fun x : string * vcheck => vc_overrides (snd x)).
+
+  (** [level_revs] with the table lookup replaced by [active_rev] *)
+  Definition level_act (b : bool) (cs : list check) (v : version) : list (string * vcheck) :=
+    flat_map (fun c => if Bool.eqb (is_restricted c) b
+                       then match active_rev c v with Some r => [(ck_id c, r)] | None => [] end
+                       else []) cs.
+
+  (** the inner loop of [part] *)
+  Definition pick (b : bool) (v : version) (cs : list check) (id : string) : list (string * vcheck) :=
+    flat_map (fun c => if String.eqb (ck_id c) id && Bool.eqb (String.eqb (ck_level c) "restricted") b
+                       then match active_rev c v with Some r => [(id, r)] | None => [] end
+                       else []) cs.
+
+  Definition ids_lvl (b : bool) (cs : list check) : list string :=
+    map ck_id (filter (fun c => Bool.eqb (String.eqb (ck_level c) "restricted") b) cs).
+
+  Lemma part_unfold b cs v : part b cs v = flat_map (pick b v cs) (ssort (ids_lvl b cs)).
+  Proof. reflexivity. Qed.
+
+  Lemma ordered_ids_unfold cs :
+    ordered_ids cs = (ssort (ids_lvl false cs) ++ ssort (ids_lvl true cs))%list.
+  Proof.
+    unfold ordered_ids, ids_lvl. f_equal; f_equal; f_equal; apply filter_ext; intros c;
+      unfold is_restricted; now destruct (String.eqb (ck_level c) "restricted").
+  Qed.
+
+  (** the checks of level family [b] with id [id] and active revision [r] at [v] *)
+  Definition act (b : bool) (cs : list check) (v : version) (id : string) (r : vcheck) : Prop :=
+    exists c, In c cs /\ ck_id c = id /\ is_restricted c = b /\ active_rev c v = Some r.
+
+  Lemma In_level_act b cs v id r : In (id, r) (level_act b cs v) <-> act b cs v id r.
+  Proof.
+    unfold level_act, act. rewrite in_flat_map. split.
+    - intros [c [Hc H]]. exists c.
+      destruct (Bool.eqb (is_restricted c) b) eqn:E; [apply eqb_prop in E|destruct H].
+      destruct (active_rev c v) as [y|]; [|destruct H].
+      destruct H as [[= <- <-]|[]]. now repeat split.
+    - intros [c [Hc [<- [<- Ha]]]]. exists c. split; [assumption|].
+      rewrite eqb_reflx, Ha. now left.
+  Qed.
+
+  Lemma In_pick b v cs id id' r : In (id', r) (pick b v cs id) <-> id' = id /\ act b cs v id r.
+  Proof.
+    unfold pick, act. rewrite in_flat_map. split.
+    - intros [c [Hc H]].
+      destruct (String.eqb_spec (ck_id c) id) as [E|N]; [|destruct H].
+      cbn [andb] in H.
+      destruct (Bool.eqb (String.eqb (ck_level c) "restricted") b) eqn:E'; [apply eqb_prop in E'|destruct H].
+      destruct (active_rev c v) as [y|] eqn:Ha; [|destruct H].
+      destruct H as [[= <- <-]|[]]. split; [reflexivity|]. now exists c.
+    - intros [-> [c [Hc [<- [<- Ha]]]]]. exists c. split; [assumption|].
+      unfold is_restricted. rewrite String.eqb_refl, eqb_reflx, Ha. now left.
+  Qed.
+
+  Lemma In_ids_lvl b cs id :
+    In id (ids_lvl b cs) <-> exists c, In c cs /\ ck_id c = id /\ is_restricted c = b.
+  Proof.
+    unfold ids_lvl. rewrite in_map_iff. split.
+    - intros [c [<- H]]. apply filter_In in H. destruct H as [Hc E]. apply eqb_prop in E. now exists c.
+    - intros [c [Hc [<- <-]]]. exists c. split; [reflexivity|]. apply filter_In.
+      split; [assumption|apply eqb_reflx].
+  Qed.
+
+  Lemma In_part b cs v id r : In (id, r) (part b cs v) <-> act b cs v id r.
+  Proof.
+    rewrite part_unfold, in_flat_map. split.
+    - intros [id' [_ H]]. apply In_pick in H. destruct H as [-> H]. exact H.
+    - intros H. exists id. split; [|now apply In_pick].
+      apply In_ssort, In_ids_lvl. destruct H as [c [Hc [E [E' _]]]]. now exists c.
+  Qed.
+
+  Lemma level_act_part_In b cs v x : In x (level_act b cs v) <-> In x (part b cs v).
+  Proof. destruct x as [id r]. now rewrite In_level_act, In_part. Qed.
+
+  Lemma NoDup_id_inj cs c1 c2 : NoDup (map ck_id cs) ->
+    In c1 cs -> In c2 cs -> ck_id c1 = ck_id c2 -> c1 = c2.
+  Proof.
+    induction cs as [|c rest IH]; intros ND H1 H2 E; [destruct H1|].
+    cbn [map] in ND. inversion ND as [|? ? Hn ND']; subst.
+    destruct H1 as [<-|H1]; destruct H2 as [<-|H2]; [reflexivity| | |now apply IH].
+    - exfalso. apply Hn. rewrite E. now apply in_map.
+    - exfalso. apply Hn. rewrite <- E. now apply in_map.
+  Qed.
+
+  (** an id belongs to one level family only *)
+  Lemma act_other_level b cs v id r : NoDup (map ck_id cs) ->
+    In id (ids_lvl b cs) -> ~ act (negb b) cs v id r.
+  Proof.
+    intros ND Hid [c [Hc [E [E' _]]]]. apply In_ids_lvl in Hid. destruct Hid as [c' [Hc' [E1 E2]]].
+    assert (c = c') by (apply (NoDup_id_inj cs); congruence). subst c'.
+    rewrite E2 in E'. now destruct b.
+  Qed.
+
+  Lemma pick_other_nil b cs v id : NoDup (map ck_id cs) ->
+    In id (ids_lvl b cs) -> pick (negb b) v cs id = [].
+  Proof.
+    intros ND Hid. apply list_no_elements_nil. intros [id' r] H. apply In_pick in H.
+    destruct H as [_ H]. now apply (act_other_level b cs v id r ND Hid).
+  Qed.
+
+  Lemma keys_level_act b cs v k : In k (map fst (level_act b cs v)) ->
+    exists c, In c cs /\ ck_id c = k /\ is_restricted c = b.
+  Proof.
+    intros H. apply in_map_iff in H. destruct H as [[id r] [<- H]]. apply In_level_act in H.
+    destruct H as [c [Hc [E [E' _]]]]. now exists c.
+  Qed.
+
+  (** the id-indexed lookup in the table is the inner loop of [part] *)
+  Lemma lookup_level_act b cs v : NoDup (map ck_id cs) -> forall id,
+    match lookup id (level_act b cs v) with Some r => [(id, r)] | None => [] end = pick b v cs id.
+  Proof.
+    induction cs as [|c rest IH]; intros ND id; [reflexivity|].
+    cbn [map] in ND. inversion ND as [|? ? Hn ND']; subst.
+    change (level_act b (c :: rest) v)
+      with ((if Bool.eqb (is_restricted c) b
+             then match active_rev c v with Some r => [(ck_id c, r)] | None => [] end
+             else []) ++ level_act b rest v)%list.
+    change (pick b v (c :: rest) id)
+      with ((if String.eqb (ck_id c) id && Bool.eqb (String.eqb (ck_level c) "restricted") b
+             then match active_rev c v with Some r => [(id, r)] | None => [] end
+             else []) ++ pick b v rest id)%list.
+    rewrite lookup_app. unfold is_restricted at 1.
+    destruct (String.eqb_spec (ck_id c) id) as [E|N].
+    - subst id.
+      assert (Hp : pick b v rest (ck_id c) = []).
+      { apply list_no_elements_nil. intros [id' r] H. apply In_pick in H.
+        destruct H as [_ [c' [Hc' [E _]]]]. apply Hn. rewrite <- E. now apply in_map. }
+      assert (Hl : lookup (ck_id c) (level_act b rest v) = None).
+      { apply lookup_None_iff. intros H. apply keys_level_act in H.
+        destruct H as [c' [Hc' [E _]]]. apply Hn. rewrite <- E. now apply in_map. }
+      rewrite Hp, Hl. cbn [andb].
+      destruct (Bool.eqb (String.eqb (ck_level c) "restricted") b); [|reflexivity].
+      destruct (active_rev c v); [|reflexivity].
+      cbn [lookup]. now rewrite String.eqb_refl.
+    - cbn [andb app]. rewrite <- IH by assumption.
+      assert (N' : String.eqb id (ck_id c) = false) by (apply String.eqb_neq; congruence).
+      destruct (Bool.eqb (String.eqb (ck_level c) "restricted") b); [|reflexivity].
+      destruct (active_rev c v); [|reflexivity].
+      cbn [lookup]. now rewrite N'.
+  Qed.
+
+  Lemma lookup_level_act_None b cs v id : NoDup (map ck_id cs) ->
+    In id (ids_lvl b cs) -> lookup id (level_act (negb b) cs v) = None.
+  Proof.
+    intros ND Hid. pose proof (lookup_level_act (negb b) cs v ND id) as H.
+    rewrite (pick_other_nil b cs v id ND Hid) in H.
+    now destruct (lookup id (level_act (negb b) cs v)).
+  Qed.
+
+  Lemma lookup_baseline_None cs v id : NoDup (map ck_id cs) ->
+    In id (ids_lvl true cs) -> lookup id (level_act false cs v) = None.
+  Proof. exact (lookup_level_act_None true cs v id). Qed.
+
+  Lemma lookup_restricted_None cs v id : NoDup (map ck_id cs) ->
+    In id (ids_lvl false cs) -> lookup id (level_act true cs v) = None.
+  Proof. exact (lookup_level_act_None false cs v id). Qed.
+
+  Lemma filter_fst_const {A} (f : string -> bool) id (l : list (string * A)) :
+    (forall x, In x l -> fst x = id) ->
+    filter (fun x => f (fst x)) l = if f id then l else [].
+  Proof.
+    induction l as [|x l IH]; intros H; [now destruct (f id)|].
+    cbn [filter]. rewrite (H x (or_introl eq_refl)), IH by (intros y Hy; apply H; now right).
+    now destruct (f id).
+  Qed.
+
+  Lemma pick_fst b v cs id x : In x (pick b v cs id) -> fst x = id.
+  Proof. destruct x as [id' r]. intros H. apply In_pick in H. now destruct H. Qed.
+
+  Lemma map_fns_baseline cs v : NoDup (map ck_id cs) ->
+    map_fns (level_act false cs v) (ordered_ids cs) = part false cs v.
+  Proof.
+    intros ND. unfold map_fns. rewrite ordered_ids_unfold, flat_map_app, part_unfold.
+    rewrite (flat_map_nil_in _ (ssort (ids_lvl true cs))).
+    - rewrite app_nil_r. apply flat_map_ext_in. intros id _. now apply lookup_level_act.
+    - intros id Hid. rewrite In_ssort in Hid.
+      now rewrite (lookup_baseline_None cs v id ND Hid).
+  Qed.
+
+  Lemma overrides_In_ext (l1 l2 : list (string * vcheck)) :
+    (forall x, In x l1 <-> In x l2) -> forall o, In o (flat_map ov l1) <-> In o (flat_map ov l2).
+  Proof.
+    intros H o. rewrite !in_flat_map. split; intros [x [Hx Ho]]; exists x; split; try assumption; now apply H.
+  Qed.
+
+  Lemma map_fns_restricted cs v : NoDup (map ck_id cs) ->
+    map_fns (level_act true cs v ++
+             filter (fun x => negb (mem (fst x) (flat_map ov (level_act true cs v))))
+                    (level_act false cs v))%list
+            (ordered_ids cs)
+    = (filter (fun x => negb (mem (fst x) (flat_map ov (part true cs v)))) (part false cs v)
+       ++ part true cs v)%list.
+  Proof.
+    intros ND. unfold map_fns. rewrite ordered_ids_unfold, flat_map_app.
+    set (ovm := flat_map ov (level_act true cs v)).
+    set (ove := flat_map ov (part true cs v)).
+    assert (Hov : forall id, mem id ovm = mem id ove).
+    { intros id. apply mem_ext. apply overrides_In_ext. intros x. apply level_act_part_In. }
+    f_equal.
+    - rewrite (part_unfold false), filter_flat_map. apply flat_map_ext_in. intros id Hid.
+      rewrite In_ssort in Hid.
+      rewrite lookup_app, (lookup_restricted_None cs v id ND Hid).
+      rewrite (lookup_filter_fst (fun k => negb (mem k ovm))).
+      rewrite (filter_fst_const (fun k => negb (mem k ove)) id) by apply pick_fst.
+      rewrite Hov. destruct (negb (mem id ove)); [now apply lookup_level_act|reflexivity].
+    - rewrite (part_unfold true). apply flat_map_ext_in. intros id Hid. rewrite In_ssort in Hid.
+      rewrite lookup_app, (lookup_filter_fst (fun k => negb (mem k ovm))).
+      rewrite (lookup_baseline_None cs v id ND Hid).
+      rewrite <- (lookup_level_act true cs v ND id).
+      destruct (lookup id (level_act true cs v)); [reflexivity|]. now destruct (negb (mem id ovm)).
+  Qed.
+
+  (** * Resolution *)
+
+  Lemma level_revs_act b cs mm m :
+    well_formed cs = true -> majors_one cs = true -> newest cs = V 1 mm -> (m <= mm)%N ->
+    level_revs b cs (V 1 mm) (V 1 m) = level_act b cs (V 1 m).
+  Proof.
+    intros W M En Hle. unfold level_revs, level_act. apply flat_map_ext_in. intros c Hc.
+    now rewrite (rev_at_active cs c mm m W M En Hle Hc).
+  Qed.
+
+  (** outside the populated range no revision is active *)
+  Lemma out_of_range_None cs v c :
+    well_formed cs = true -> majors_one cs = true ->
+    older (newest cs) v = false -> in_populated_range (newest cs) v = false ->
+    In c cs -> active_rev c v = None.
+  Proof.
+    intros W M Ho Hr Hc. apply active_rev_None. intros r Hr'.
+    assert (Hne : cs <> []) by (intros E; now rewrite E in Hc).
+    pose proof (newest_V1 cs W M Hne) as En.
+    pose proof (newest_ge cs c r Hc Hr') as G.
+    rewrite (majors_one_V1 cs c r M Hc Hr') in *.
+    rewrite En in *. destruct v as [|p q]; [discriminate|].
+    rewrite in_populated_range_V1 in Hr. revert Ho Hr G. generalize (minor_of (newest cs)).
+    intros mm. vsolve.
+  Qed.
+
+  Lemma part_out_of_range b cs v :
+    well_formed cs = true -> majors_one cs = true ->
+    older (newest cs) v = false -> in_populated_range (newest cs) v = false ->
+    part b cs v = [].
+  Proof.
+    intros W M Ho Hr. apply list_no_elements_nil. intros [id r] H. apply In_part in H.
+    destruct H as [c [Hc [_ [_ Ha]]]].
+    now rewrite (out_of_range_None cs v c W M Ho Hr Hc) in Ha.
+  Qed.
+
+  Lemma clamp_not_older cs v : older (newest cs) (clamp cs v) = false.
+  Proof.
+    unfold clamp. destruct (older (newest cs) v) eqn:E; [apply older_irrefl|exact E].
+  Qed.
+
+  Lemma baseline_at_part cs v :
+    well_formed cs = true -> majors_one cs = true -> older (newest cs) v = false ->
+    baseline_at cs v = part false cs v.
+  Proof.
+    intros W M Ho. unfold baseline_at. cbv zeta. rewrite (max_version_newest cs W).
+    destruct (in_populated_range (newest cs) v) eqn:R.
+    - destruct (in_populated_range_inv _ _ R) as [mm [m [En [-> Hle]]]]. rewrite En.
+      rewrite (level_revs_act false cs mm m W M En Hle).
+      apply map_fns_baseline. now apply wf_NoDup.
+    - symmetry. now apply part_out_of_range.
+  Qed.
+
+  Lemma restricted_at_part cs v :
+    well_formed cs = true -> majors_one cs = true -> older (newest cs) v = false ->
+    restricted_at cs v =
+    (filter (fun x => negb (mem (fst x) (flat_map ov (part true cs v)))) (part false cs v)
+     ++ part true cs v)%list.
+  Proof.
+    intros W M Ho. unfold restricted_at. cbv zeta. rewrite (max_version_newest cs W).
+    destruct (in_populated_range (newest cs) v) eqn:R.
+    - destruct (in_populated_range_inv _ _ R) as [mm [m [En [-> Hle]]]]. rewrite En.
+      rewrite !(level_revs_act _ cs mm m W M En Hle).
+      apply map_fns_restricted. now apply wf_NoDup.
+    - now rewrite !(part_out_of_range _ cs v W M Ho R).
+  Qed.
+
+  Theorem resolve_expected cs l v :
+    well_formed cs = true -> majors_one cs = true -> resolve cs l v = expected cs l v.
+  Proof.
+    intros W M. unfold resolve, expected. cbv zeta. rewrite (max_version_newest cs W).
+    change (if older (newest cs) v then newest cs else v) with (clamp cs v).
+    destruct l.
+    - reflexivity.
+    - apply baseline_at_part; try assumption. apply clamp_not_older.
+    - apply restricted_at_part; try assumption. apply clamp_not_older.
+  Qed.
+
+  Lemma clamp_idem cs v : clamp cs (clamp cs v) = clamp cs v.
+  Proof. unfold clamp at 1. now rewrite clamp_not_older. Qed.
+
+  (** clamping needs well-formedness only (to identify [max_version] with [newest]) *)
+  Theorem resolve_clamp_wf cs l v : well_formed cs = true ->
+    resolve cs l v = resolve cs l (clamp cs v).
+  Proof.
+    intros W. unfold resolve. cbv zeta. rewrite (max_version_newest cs W).
+    change (if older (newest cs) v then newest cs else v) with (clamp cs v).
+    change (if older (newest cs) (clamp cs v) then newest cs else clamp cs v)
+      with (clamp cs (clamp cs v)).
+    now rewrite clamp_idem.
+  Qed.
+
+  Theorem resolve_clamp cs l v : well_formed cs = true -> majors_one cs = true ->
+    resolve cs l v = resolve cs l (clamp cs v).
+  Proof. intros W _. now apply resolve_clamp_wf. Qed.
+
+  Lemma clamp_future cs v : well_formed cs = true ->
+    (v = Latest \/ older (newest cs) v = true) -> clamp cs v = newest cs.
+  Proof.
+    intros W [->|H]; unfold clamp.
+    - now rewrite (older_Latest _ (newest_not_Latest cs W)).
+    - now rewrite H.
+  Qed.
+
+  Lemma clamp_newest cs : clamp cs (newest cs) = newest cs.
+  Proof. unfold clamp. now rewrite older_irrefl. Qed.
+
+  Theorem resolve_latest_and_future cs l v :
+    well_formed cs = true -> majors_one cs = true ->
+    (v = Latest \/ older (newest cs) v = true) -> resolve cs l v = resolve cs l (newest cs).
+  Proof.
+    intros W _ H. rewrite (resolve_clamp_wf cs l v W), (resolve_clamp_wf cs l (newest cs) W).
+    now rewrite (clamp_future cs v W H), clamp_newest.
+  Qed.
+
+  Theorem resolve_privileged cs v : resolve cs Privileged v = [].
+  Proof. reflexivity. Qed.
+
+  (** * Structure of the resolved lists *)
+
+  Theorem resolve_baseline_ids cs v id r :
+    well_formed cs = true -> majors_one cs = true ->
+    (In (id, r) (resolve cs Baseline v) <-> act false cs (clamp cs v) id r).
+  Proof.
+    intros W M. rewrite (resolve_expected cs Baseline v W M). unfold expected. cbv zeta.
+    apply In_part.
+  Qed.
+
+  (** the ids overridden by the restricted revisions active at [v] *)
+  Definition overridden_at (cs : list check) (v : version) (id : string) : Prop :=
+    exists id' r', act true cs v id' r' /\ In id (vc_overrides r').
+
+  Lemma overridden_at_In cs v id :
+    In id (flat_map ov (part true cs v)) <-> overridden_at cs v id.
+  Proof.
+    rewrite in_flat_map. split.
+    - intros [[id' r'] [H Ho]]. apply In_part in H. now exists id', r'.
+    - intros [id' [r' [H Ho]]]. exists (id', r'). split; [now apply In_part|assumption].
+  Qed.
+
+  Theorem resolve_restricted_structure cs v id r :
+    well_formed cs = true -> majors_one cs = true ->
+    (In (id, r) (resolve cs Restricted v) <->
+     act true cs (clamp cs v) id r \/
+     (act false cs (clamp cs v) id r /\ ~ overridden_at cs (clamp cs v) id)).
+  Proof.
+    intros W M. rewrite (resolve_expected cs Restricted v W M). unfold expected. cbv zeta.
+    rewrite in_app_iff, filter_In, In_part, In_part, negb_true_iff. cbn [fst].
+    rewrite mem_false_iff, overridden_at_In. tauto.
+  Qed.
+
+  Theorem resolve_baseline_covered cs v id r :
+    well_formed cs = true -> majors_one cs = true ->
+    In (id, r) (resolve cs Baseline v) ->
+    In (id, r) (resolve cs Restricted v) \/
+    exists id' r', In (id', r') (resolve cs Restricted v) /\ In id (vc_overrides r').
+  Proof.
+    intros W M H. apply (resolve_baseline_ids cs v id r W M) in H.
+    destruct (mem id (flat_map ov (part true cs (clamp cs v)))) eqn:E.
+    - right. apply mem_In, overridden_at_In in E. destruct E as [id' [r' [Ha Ho]]].
+      exists id', r'. split; [|assumption].
+      apply (resolve_restricted_structure cs v id' r' W M). now left.
+    - left. apply (resolve_restricted_structure cs v id r W M). right. split; [assumption|].
+      now rewrite <- overridden_at_In, <- mem_false_iff.
+  Qed.
+
+  (** restricted resolution contains every restricted revision *)
+  Lemma resolve_restricted_incl cs v id r :
+    well_formed cs = true -> majors_one cs = true ->
+    act true cs (clamp cs v) id r -> In (id, r) (resolve cs Restricted v).
+  Proof. intros W M H. apply (resolve_restricted_structure cs v id r W M). now left. Qed.
+
+  (** at the newest version every check has an active revision *)
+  Lemma active_at_newest cs c : well_formed cs = true -> In c cs ->
+    exists r, active_rev c (newest cs) = Some r.
+  Proof.
+    intros W Hc. pose proof (wf_local_ok cs c W Hc) as L.
+    destruct (ck_versions c) as [|r rs] eqn:E; [now apply local_ok_nonnil in L|].
+    assert (Hr : In r (ck_versions c)) by (rewrite E; now left).
+    apply (active_rev_Some c (newest cs) r Hr). now apply (newest_ge cs c r).
+  Qed.
+
+  Theorem resolve_never_empty cs v :
+    well_formed cs = true -> majors_one cs = true -> cs <> [] ->
+    (v = Latest \/ older (newest cs) v = true) -> resolve cs Restricted v <> [].
+  Proof.
+    intros W M Hne Hv.
+    assert (Hin : exists x, In x (resolve cs Restricted v)).
+    { destruct (existsb (@is_restricted F) cs) eqn:Ex.
+      - apply existsb_exists in Ex. destruct Ex as [c [Hc Hrc]].
+        destruct (active_at_newest cs c W Hc) as [r Hr]. rewrite <- (clamp_future cs v W Hv) in Hr.
+        exists (ck_id c, r). apply (resolve_restricted_incl cs v _ _ W M). now exists c.
+      - destruct cs as [|c cs']; [congruence|]. set (cs := c :: cs') in *.
+        assert (Hc : In c cs) by now left.
+        assert (Hall : forall c', In c' cs -> is_restricted c' = false).
+        { intros c' Hc'. destruct (is_restricted c') eqn:E; [|reflexivity].
+          assert (existsb (@is_restricted F) cs = true) by (apply existsb_exists; now exists c').
+          congruence. }
+        destruct (active_at_newest cs c W Hc) as [r Hr]. rewrite <- (clamp_future cs v W Hv) in Hr.
+        exists (ck_id c, r). apply (resolve_restricted_structure cs v _ _ W M). right. split.
+        + exists c. repeat split; try assumption. now apply Hall.
+        + intros [id' [r' [[c' [Hc' [_ [E _]]]] _]]]. rewrite (Hall c' Hc') in E. discriminate. }
+    destruct Hin as [x Hx]. intros E. now rewrite E in Hx.
+  Qed.
+
 End RegistryFacts.
+
+Arguments act {F}. Arguments overridden_at {F}. Arguments level_act {F}. Arguments pick {F}.
+Arguments ids_lvl {F}. Arguments all_mins {F}. Arguments local_ok {F}. Arguments rev_ok {F}.
+Arguments ov_spec {F}. Arguments ov_model {F}. Arguments step {F}. Arguments all_V1 {F}.
+
+(** * The relation P04 on the model's own observation *)
+
+Theorem P04_model (cs : list (check string)) (qs : list (level * version)) :
+  P04 cs (match new_evaluator cs with None => true | Some _ => false end)
+      (match new_evaluator cs with
+       | None => []
+       | Some ev => map (fun q : level * version =>
+                           (fst q, snd q, map (fun x => vc_fn (snd x)) (ev (fst q) (snd q)))) qs
+       end) = true.
+Proof.
+  unfold P04, new_evaluator. rewrite validate_checks_well_formed.
+  destruct (well_formed cs) eqn:W; cbn [negb]; [|reflexivity].
+  destruct (majors_one cs) eqn:M; cbn [negb andb]; [|reflexivity].
+  apply forallb_forall. intros [[l v] got] H. apply in_map_iff in H.
+  destruct H as [q [[= <- <- <-] _]].
+  rewrite (resolve_expected string cs (fst q) (snd q) W M).
+  apply list_eqb_refl, String.eqb_refl.
+Qed.
